@@ -631,12 +631,21 @@ def Y4(ctx):
         ea2 = EventAnalysis(prog, _table_matcher, assume=assume_discr(ups[0], 4)).solve([fs])
         where = fn_key
     m2 = ea2.must_of(fs)
-    if m2 is not TOP and {"fence_acq", "fence_rel", "seq_cst_fence"} <= set(m2) and not ea2.must_before(fs, "fence_acq", "seq_cst_fence") \
-            and not ea2.must_before(fs, "fence_rel", "seq_cst_fence"):
-        ctx.ok("Y4", "fence_seqcst:order", "acquire + release parts precede the join with the global SC clock", [prog.fns[where].loc()])
+    if m2 is not TOP and {"fence_acq", "fence_rel", "seq_cst_fence"} <= set(m2) and not ea2.must_before(fs, "fence_acq", "seq_cst_fence"):
+        ctx.ok("Y4", "fence_seqcst:order", "the acquire part precedes the join with the global SC clock", [prog.fns[where].loc()])
     else:
-        ctx.bad("Y4", "rt::atomic::fence_seqcst", "a SeqCst fence must acquire (and release) before it joins the global SC clock: otherwise what the "
+        ctx.bad("Y4", "rt::atomic::fence_seqcst", "a SeqCst fence must acquire before it joins the global SC clock: otherwise what the "
                 "fence acquires never reaches later SC fences of other threads", prog.fns[where].loc(), detail="order")
+    # ... and its release snapshot is taken after that join: a relaxed store after the fence must also publish what the fence
+    # obtained from the SC fences that precede it in the SC order (RC11 / C++20: fences X hb A, B hb Y with A read-before B order
+    # X before Y; `x=1; F1; c=z` | `z=1; F2; y=1` | `a=y(acq); b=x` must not yield (c,a,b) = (0,1,0))
+    if m2 is not TOP and {"fence_rel", "seq_cst_fence"} <= set(m2):
+        if ea2.must_before(fs, "seq_cst_fence", "fence_rel"):
+            ctx.bad("Y4", "rt::atomic::fence_seqcst", "a SeqCst fence takes its release snapshot (`released = causality`) before it has joined the "
+                    "global SC clock: stores after the fence do not publish what the fence obtained from earlier SC fences, and an "
+                    "execution RC11 forbids is produced", prog.fns[where].loc(), detail="sc-before-rel")
+        else:
+            ctx.ok("Y4", "fence_seqcst:sc-before-rel", "the release snapshot follows the join with the global SC clock", [prog.fns[where].loc()])
     # an AcqRel / SeqCst fence acquires first and takes its release snapshot afterwards: what the very same fence acquires must be
     # part of what later relaxed stores publish
     for (nm, val) in (("AcqRel", 3), ("SeqCst", 4)):
